@@ -1,1 +1,156 @@
-import CnlModel.Basic
+import CnlProofs.Charconv
+/-!
+# C13 — `to_chars` never writes outside the caller's buffer and reports failure cleanly
+
+Model: `CnlModel.Charconv` (buffer = `(len, cells)`, an out-of-range write is the value `Res.oob`,
+a failed `CNL_ASSERT` is `Res.unreachable`).  The model follows the repaired code (three `fix:` commits,
+`findings/C13.json`); the unrepaired selection and loop are kept as `chooseOrig`, `descaleOrig`,
+`natResultOrig` and are *refuted* below by kernel-checked witnesses.
+
+Proved for every integer width, every value, every buffer length and every base 2…36:
+`integer_stays_inside`, `integer_succeeds_iff_numeral_fits`, `integer_never_out_of_bounds`,
+`integer_capacity_suffices`; the layout selection (`layout_safe`, all digit counts, exponents, buffer sizes).
+
+For `scaled_integer` (every value, exponent, radix 2…10, buffer length; signed significand type):
+`scaled_positive_routine`, `descale_terminates`, `descale_returns`, `scaled_stays_inside`.
+
+Not proved (full statements kept as `FullScaledContractUnsigned`, `FullScaledCapacity`): the unsigned
+64/128-bit significand types, and that `to_chars_capacity<scaled_integer>` is always enough (it depends on
+the `descale` output for every exponent).  Both are covered by the correspondence sweep only (every value of
+8-bit reps × every length 0…capacity+2 × exponents −70…70; `fix` lines at capacity).
+The one open finding is `MostNegative` (the most negative value of a ≥ 32-bit type: documented limitation).
+-/
+namespace Cnl.C13
+open Cnl Cnl.Charconv
+
+/-- integers: on a buffer of `len` untouched cells the call returns normally; on success the pointer `p`
+satisfies `0 < p ≤ len`, cells `[0,p)` are written and `[p,len)` untouched; on failure the pointer is `last` -/
+theorem integer_stays_inside (T : IntTy) (len : Nat) (v : Int) (base : Nat)
+    (hb : 2 ≤ base ∧ base ≤ 36) (hm : ¬ MostNegative T v) (hu : T.signed = false → 0 ≤ v) :
+    ∃ r, intToChars T (Buf.fresh len) v base = .ok r ∧ Contract len r :=
+  intToChars_contract T len v base hb hm hu
+
+example : ¬ MostNegative i32 (-2147483647) ∧ (i32.signed = false → (0 : Int) ≤ -2147483647) := by decide
+
+/-- it succeeds exactly when the canonical numeral fits -/
+theorem integer_succeeds_iff_numeral_fits (T : IntTy) (len : Nat) (v : Int) (base : Nat)
+    (hb : 2 ≤ base ∧ base ≤ 36) (hm : ¬ MostNegative T v) (hu : T.signed = false → 0 ≤ v) :
+    ∃ r, intToChars T (Buf.fresh len) v base = .ok r ∧ r.ok = decide ((intText base v).length ≤ len) :=
+  intToChars_ok T len v base hb hm hu
+
+/-- no value at all — not even the unsupported most negative one — makes the integer routine write out of range -/
+theorem integer_never_out_of_bounds (T : IntTy) (len : Nat) (v : Int) (base : Nat)
+    (hb : 2 ≤ base ∧ base ≤ 36) (hu : T.signed = false → 0 ≤ v) (i : Nat) :
+    intToChars T (Buf.fresh len) v base ≠ .oob i := by
+  by_cases hm : MostNegative T v
+  · have hbb : ¬ (base < 2 ∨ base > 36) := by omega
+    have hP : 0 ≤ (promote T).max := by
+      unfold IntTy.max
+      have h1 : (0 : Int) < 2 ^ ((promote T).bits - 1) := Int.pow_pos (by omega)
+      have h2 : (0 : Int) < 2 ^ (promote T).bits := Int.pow_pos (by omega)
+      split <;> omega
+    have hv : v ≠ 0 := by have := hm.2; omega
+    have hn : T.signed = true ∧ v < 0 := ⟨hm.1, by have := hm.2; omega⟩
+    unfold intToChars
+    rw [if_neg hbb, if_neg hv, if_pos hn]
+    by_cases hl : (Buf.fresh len).len < 2
+    · rw [if_pos hl]; intro h; cases h
+    · have h0 : 0 < (Buf.fresh len).len := by omega
+      rw [if_neg hl]
+      simp only [Buf.write, h0, if_true, hm.2]
+      intro h; cases h
+  · obtain ⟨r, hr, _⟩ := intToChars_contract T len v base hb hm hu
+    rw [hr]; intro h; cases h
+
+/-- `to_chars_capacity<T>` cells are enough for every supported value of `T` (any width): the fixed-capacity
+variants of integers always succeed -/
+theorem integer_capacity_suffices (T : IntTy) (v : Int) (hbits : 1 ≤ T.bits) (hr : T.InRange v)
+    (hm : ¬ MostNegative T v) :
+    ∃ r, intToChars T (Buf.fresh (intCapacity T)) v 10 = .ok r ∧ r.ok = true := by
+  have hu : T.signed = false → 0 ≤ v := by
+    intro hs; have := hr.1; simp [IntTy.lowest, hs] at this; exact this
+  obtain ⟨r, h1, h2⟩ := intToChars_ok T (intCapacity T) v 10 (by omega) hm hu
+  exact ⟨r, h1, by rw [h2]; exact decide_eq_true (intText_le_capacity T v hr hbits)⟩
+
+example : i64.InRange (-9223372036854775807) ∧ ¬ MostNegative i64 (-9223372036854775807) := by decide
+
+/-- scaled_integer: the repaired selection never fills a layout without digits or beyond the space, for
+every digit count, exponent, exponent-text length and buffer size -/
+theorem layout_safe (i : Info) (he : 0 ≤ i.expChars) : Safe choose i := choose_safe i he
+
+/-- the selection as first written does (13 digits, exponent −17, no room left, exponent text "-5") -/
+theorem layout_unrepaired_refuted : ¬ Safe chooseOrig ⟨13, -17, 0, 2⟩ := chooseOrig_not_safe
+
+/-- … which the whole unrepaired routine turns into a failed assertion (an out-of-bounds write in release
+builds): `scaled_integer<int8_t, power<-20>>` rep −104 into one character -/
+theorem scaled_unrepaired_refuted :
+    scaledToCharsOrig i8 (-20) 2 1 (-104) = .unreachable "assert: scientific_solution.num_significand_digits > 0" := by
+  decide +kernel
+
+/-- the same call on the repaired code: `'-'` written, `value_too_large`, pointer = `last` -/
+theorem scaled_repaired_witness :
+    scaledToChars i8 (-20) 2 1 (-104) = .ok ⟨some 1, false, ⟨1, [some '-']⟩⟩ := by decide +kernel
+
+/-- the unrepaired `descale` never returns for `scaled_integer<int, power<70>>` rep 3 … -/
+theorem descale_unrepaired_diverges : descaleOrig i64 3 70 2 = .diverges := by decide +kernel
+
+/-- … the repaired one does -/
+theorem descale_repaired_witness : descale i64 3 70 2 = .ok ⟨354177486215223384, 4, 4⟩ := by decide +kernel
+
+/-- a failed integer conversion used to return a null pointer; now `last` -/
+theorem null_pointer_unrepaired_refuted :
+    (natResultOrig (none, Buf.fresh 3)).ptr = none ∧ (natResult (none, Buf.fresh 3)).ptr = some 3 := by decide
+
+/-- scaled_integer, the positive-value routine `_impl::to_chars_positive`, for every non-empty digit string,
+every exponent, every buffer and every offset `first ≤ last`: either nothing is written and
+`{last, value_too_large}` is returned, or a non-empty text that fits is written at `[first, first+|t|)`, nothing
+else changes and `{first+|t|, errc{}}` is returned — never `oob`, never a failed assertion -/
+theorem scaled_positive_routine (b : Buf) (first : Nat) (ds : List Char) (x : Int)
+    (hds : ds ≠ []) (hf : first ≤ b.len) :
+    toCharsPositive b first ds x = .ok ⟨some b.len, false, b⟩ ∨
+    ∃ t : List Char, 0 < t.length ∧ first + t.length ≤ b.len ∧
+      toCharsPositive b first ds x = .ok ⟨some (first + t.length), true,
+        ⟨b.len, b.cells.take first ++ t.map some ++ b.cells.drop (first + t.length)⟩⟩ :=
+  toCharsPositive_contract b first ds x hds hf
+
+example : ("125".toList ≠ []) ∧ (1 ≤ (Buf.fresh 3).len) := by decide
+
+/-- the repaired `descale` returns for every input, exponent and input radix (signed significand types) -/
+theorem descale_terminates (S : IntTy) (hs : S.signed = true) (h8 : 8 ≤ S.bits) (input e : Int) (R : Nat)
+    (hR : 1 ≤ R) (hr : S.InRange input) : descale S input e R ≠ .diverges :=
+  Charconv.descale_terminates S hs h8 input e R hR hr
+
+/-- … with a non-zero in-range significand of the input's sign: no overflow in `significand *= radix` -/
+theorem descale_returns (S : IntTy) (hs : S.signed = true) (h8 : 8 ≤ S.bits) (input e : Int) (R : Nat)
+    (hR2 : 2 ≤ R) (hR : R ≤ 10) (hr : S.InRange input) (h0 : input ≠ 0) :
+    ∃ d, descale S input e R = .ok d ∧ SigOK S (decide (input < 0)) d.sig :=
+  descale_ok S hs h8 input e R hR2 hR hr h0
+
+example : i64.signed = true ∧ 8 ≤ i64.bits ∧ i64.InRange 3 := by decide
+
+/-- `cnl::to_chars(first, last, scaled_integer<T, power<e, radix>>)` for EVERY value, exponent, radix 2…10 and
+buffer length (significand type signed: `int64_t` for every rep of at most 63 digits, or a wider signed rep):
+the call returns normally and meets the contract (`0 < p ≤ len`, exactly `[0,p)` written; or pointer = `last`
+with `value_too_large`) — or the descaled significand is the most negative value (the open finding) -/
+theorem scaled_stays_inside (T : IntTy) (e : Int) (radix len : Nat) (rep : Int)
+    (hS : (sigTy T).signed = true) (hr : (sigTy T).InRange rep) (hR2 : 2 ≤ radix) (hR : radix ≤ 10) :
+    (∃ r, scaledToChars T e radix len rep = .ok r ∧ Contract len r) ∨
+    scaledToChars T e radix len rep = .unreachable "assert: most negative value" :=
+  scaledToChars_stays_inside T e radix len rep hS hr hR2 hR
+
+example : (sigTy i8).signed = true ∧ (sigTy i8).InRange (-104) := by decide
+
+/-- not proved: the same for the unsigned 64/128-bit significand types (`uint64_t`, `unsigned __int128` reps),
+where `significand *= radix` wraps instead of being undefined — covered by the correspondence sweep only -/
+def FullScaledContractUnsigned : Prop :=
+  ∀ (T : IntTy) (e : Int) (radix len : Nat) (rep : Int), (sigTy T).signed = false → 64 ≤ T.bits →
+    2 ≤ radix → radix ≤ 10 → T.InRange rep →
+    ∃ r, scaledToChars T e radix len rep = .ok r ∧ Contract len r
+
+/-- full statement: the capacity of `scaled_integer` is enough for every value -/
+def FullScaledCapacity : Prop :=
+  ∀ (T : IntTy) (e : Int) (rep : Int), 8 ≤ T.bits → -70 ≤ e → e ≤ 70 → T.InRange rep →
+    (∃ t, scaledStaticText T e 2 rep = .ok t) ∨
+    scaledStaticText T e 2 rep = .unreachable "assert: most negative value"
+
+end Cnl.C13
